@@ -1,0 +1,68 @@
+/*
+ * PoPS model - optional observation hooks for external verification harnesses
+ *
+ * Everything in this file is inactive unless POPS_CORE_VERIF is defined.
+ * With the macro defined, a harness can install two callbacks: one called
+ * after each action of Model::run_step and one called at the points where a
+ * random outcome is used. The library never reads anything back from them.
+ */
+
+#ifndef POPS_VERIF_HOOKS_HPP
+#define POPS_VERIF_HOOKS_HPP
+
+#ifdef POPS_CORE_VERIF
+
+#include <functional>
+#include <vector>
+
+namespace pops {
+namespace verif {
+
+struct Hooks
+{
+    /** Called after an action of Model::run_step ran: step, action name */
+    std::function<void(int, const char*)> action;
+    /** Called where a random outcome is used: tag, address of the generator
+     * object the code was handed, numeric payload */
+    std::function<void(const char*, const void*, const std::vector<double>&)> event;
+};
+
+inline Hooks& hooks()
+{
+    static Hooks instance;
+    return instance;
+}
+
+}  // namespace verif
+}  // namespace pops
+
+#define POPS_VERIF_ACTION(step, name) \
+    do { \
+        auto& pops_verif_hooks_ = ::pops::verif::hooks(); \
+        if (pops_verif_hooks_.action) \
+            pops_verif_hooks_.action((step), (name)); \
+    } while (0)
+
+#define POPS_VERIF_EVENT(tag, generator, ...) \
+    do { \
+        auto& pops_verif_hooks_ = ::pops::verif::hooks(); \
+        if (pops_verif_hooks_.event) \
+            pops_verif_hooks_.event( \
+                (tag), \
+                static_cast<const void*>(&(generator)), \
+                std::vector<double>{__VA_ARGS__}); \
+    } while (0)
+
+#define POPS_VERIF_EVENT_V(tag, generator, values) \
+    do { \
+        auto& pops_verif_hooks_ = ::pops::verif::hooks(); \
+        if (pops_verif_hooks_.event) \
+            pops_verif_hooks_.event( \
+                (tag), \
+                static_cast<const void*>(&(generator)), \
+                std::vector<double>((values).begin(), (values).end())); \
+    } while (0)
+
+#endif  // POPS_CORE_VERIF
+
+#endif  // POPS_VERIF_HOOKS_HPP
